@@ -2617,6 +2617,13 @@ setattr_delegate(
                 return -1;
             }
         }
+
+        // The attribute name on the new delegate is determined by 'traitd'
+        // and by the object that 'traitd' belongs to (as in getattr_delegate),
+        // which for the second and later links of a chain is not 'obj':
+        daname2 = traitd->delegate_attr_name(traitd, delegate, daname);
+        Py_DECREF(daname);
+        daname = daname2;
         Py_DECREF(delegate);
         delegate = temp_delegate;
 
@@ -2628,9 +2635,6 @@ setattr_delegate(
             return bad_delegate_error2(obj, name);
         }
 
-        daname2 = traitd->delegate_attr_name(traitd, obj, daname);
-        Py_DECREF(daname);
-        daname = daname2;
         if (((delegate->itrait_dict == NULL)
              || ((temp_traitd = (trait_object *)dict_getitem(
                       delegate->itrait_dict, daname))
